@@ -662,3 +662,53 @@ Definition diff_spec : Prop := forall a b, SetInv a -> SetInv b ->
 Definition xor_spec : Prop := forall a b, SetInv a -> SetInv b ->
   exists d, set_symdiff a b = Ok d /\ SetInv d /\
     forall ver x, den d ver x <-> (den a ver x /\ ~ den b ver x) \/ (den b ver x /\ ~ den a ver x).
+
+(* ================================================================ a sound boolean check of SetInv (for examples) *)
+Definition wfhb (n : net) : bool :=
+  valid_ver (nver n) && (0 <=? nval n) && (nval n <? 2 ^ width (nver n)) && (0 <=? nplen n) &&
+  (nplen n <=? width (nver n)) && (nval n =? nf n).
+Definition disjb (a b : net) : bool := negb (nver a =? nver b) || (nl a <? nf b) || (nl b <? nf a).
+Definition sibb (a b : net) : bool :=
+  (nver a =? nver b) && (nplen a =? nplen b) && (nf b =? nf a + 2 ^ (width (nver a) - nplen a)) &&
+  (nf a mod (2 * 2 ^ (width (nver a) - nplen a)) =? 0).
+Fixpoint ordpairsb (f : net -> net -> bool) (l : list net) : bool :=
+  match l with [] => true | a :: r => forallb (f a) r && ordpairsb f r end.
+Definition setinvb (d : list net) : bool :=
+  forallb wfhb d && ordpairsb disjb d && forallb (fun a => forallb (fun b => negb (sibb a b)) d) d.
+
+Lemma wfhb_sound n : wfhb n = true -> wfh n.
+Proof.
+  unfold wfhb. rewrite !andb_true_iff, !Z.leb_le, Z.ltb_lt, Z.eqb_eq. intros (((((V & H1) & H2) & H3) & H4) & H5).
+  split; [|exact H5]. unfold wf_net. tauto.
+Qed.
+
+Lemma disjb_sound a b : disjb a b = true -> ~ overlap a b.
+Proof.
+  unfold disjb. rewrite !orb_true_iff, negb_true_iff, Z.eqb_neq, !Z.ltb_lt.
+  intros H (ver & x & (Ea & Ia) & (Eb & Ib)). lia.
+Qed.
+
+Lemma sibb_complete a b : siblings a b -> sibb a b = true.
+Proof.
+  intros (Ev & Hp & Hv & Hd). unfold net_blk, bsize in *; cbn [bv bp] in *.
+  unfold sibb. rewrite !andb_true_iff, !Z.eqb_eq. repeat split; auto.
+  destruct Hd as [k Hk]. rewrite Hk. destruct (Z.eq_dec (2 * 2 ^ (width (nver a) - nplen a)) 0) as [E|E].
+  - rewrite E. rewrite Z.mul_0_r. apply Zmod_0_l.
+  - apply Z.mod_mul, E.
+Qed.
+
+Lemma ordpairsb_sound (f : net -> net -> bool) (R : net -> net -> Prop) l :
+  (forall a b, f a b = true -> R a b) -> ordpairsb f l = true -> ForallOrdPairs R l.
+Proof.
+  intros H. induction l as [|a l IH]; intros E; [constructor|]. cbn [ordpairsb] in E. apply andb_true_iff in E.
+  destruct E as [E1 E2]. constructor; [|apply IH, E2]. rewrite forallb_forall in E1. apply Forall_forall. intros x Hx. apply H, E1, Hx.
+Qed.
+
+Lemma setinvb_sound d : setinvb d = true -> SetInv d.
+Proof.
+  unfold setinvb. rewrite !andb_true_iff. intros ((W & O) & S). split; [|split].
+  - rewrite forallb_forall in W. apply Forall_forall. intros x Hx. apply wfhb_sound, W, Hx.
+  - eapply ordpairsb_sound; [apply disjb_sound|exact O].
+  - intros a b Ha Hb Hs. rewrite forallb_forall in S. specialize (S a Ha). rewrite forallb_forall in S. specialize (S b Hb).
+    rewrite (sibb_complete a b Hs) in S. discriminate.
+Qed.
